@@ -352,3 +352,11 @@ Proof.
   rewrite V1, V2, V3. unfold expected_error_body. rewrite He. repeat split; reflexivity.
 Qed.
 Print Assumptions C12_error_text_no_reason_phrase.
+
+(* The order in which [chain_p] nests the directives (limits outermost ... templates innermost)
+   is the order of httpserver's directive list as extracted from /repo (Gen_C09.gen_directives,
+   regenerated by setup.sh): computed. *)
+Theorem C12_nesting_is_directive_order :
+  strictly_increasing (map (fun k => pos_in V.Gen_C09.gen_directives k 0) chain_order) = true.
+Proof. exact nesting_is_directive_order. Qed.
+Print Assumptions C12_nesting_is_directive_order.
